@@ -339,6 +339,11 @@ func hx(b []byte) string {
 // submit calls addLeafToPool and writes the EvSubmit event with the faults its issuer
 // operations consumed and the eviction victim it chose.
 func (d *driver) submit(li *logInst, e *ctlog.PendingLogEntry, low bool) {
+	d.submitOpt(li, e, low, true)
+}
+
+// submitOpt: with doSync=false the acknowledgement flush is left to the caller (bulk submissions)
+func (d *driver) submitOpt(li *logInst, e *ctlog.PendingLogEntry, low bool, doSync bool) {
 	w := d.w
 	w.mu.Lock()
 	li.in.buf = &bytes.Buffer{}
@@ -443,7 +448,9 @@ func (d *driver) submit(li *logInst, e *ctlog.PendingLogEntry, low bool) {
 		}
 	}
 	w.mu.Unlock()
-	d.sync()
+	if doSync {
+		d.sync()
+	}
 }
 
 func b2i(b bool) string {
